@@ -204,6 +204,29 @@ static void stream_history(const args_t *a, long idx)
     if (idx % 997 == 0 || a->only >= 0) emit_sample();
 }
 
+static void stream_megabyte(const args_t *a, long idx)
+{
+    size_t total = ((size_t)1 << 20) + 21, first = 5 + (size_t)(idx % 11), pos;
+    uint8_t *msg = (uint8_t *)malloc(total), d[32], e[32], o[32];
+    rng_t r = rng_for(a->seed, 0x4E6A, (uint64_t)idx);
+    tinyjambu_hash_state_t st;
+    set_case("{\"h\":\"hash\",\"mode\":\"megabyte\",\"i\":%ld,\"total\":%zu,\"chunks\":\"%zu,rest | 4096-byte updates | one-shot\"}", idx, total, first);
+    fill_random(&r, msg, total);
+    m_hash(e, msg, total); ++n_model;
+    tinyjambu_hash_init(&st); tinyjambu_hash_update(&st, msg, first); tinyjambu_hash_update(&st, msg + first, total - first); tinyjambu_hash_finalize(&st, d);
+    ++n_eval; ++n_seq; n_updates += 2; ++n_finalize;
+    if (memcmp(d, e, 32)) digest_mismatch("stream-split-mismatch:megabyte-single-update", "init, update(few), update(1 MiB+) differs from the model", e, d);
+    tinyjambu_hash_init(&st);
+    for (pos = 0; pos < total; pos += 4096) { tinyjambu_hash_update(&st, msg + pos, total - pos < 4096 ? total - pos : 4096); ++n_updates; }
+    tinyjambu_hash_finalize(&st, d); ++n_finalize;
+    if (memcmp(d, e, 32)) digest_mismatch("stream-split-mismatch:megabyte-4096-chunks", "4096-byte updates of a 1 MiB+ message differ from the model", e, d);
+    tinyjambu_hash(o, msg, total);
+    if (memcmp(o, e, 32)) digest_mismatch("stream-split-mismatch:megabyte-oneshot", "one-shot hash of a 1 MiB+ message differs from the model", e, o);
+    cls_add(mix64(0x4E6A, (uint64_t)idx));
+    emit_sample();
+    free(msg);
+}
+
 static void stream_random_chunks(const args_t *a, long idx)
 {
     rng_t r = rng_for(a->seed, 0xC4C4, (uint64_t)idx);
@@ -304,6 +327,31 @@ static void hmac_case(const args_t *a, long idx, size_t keylen, size_t mlen)
             tinyjambu_hmac_finalize(&st, key, keylen, d2);
             if (memcmp(d2, exp, 32)) digest_mismatch("hmac-reinit-mismatch", "HMAC via reinit after finalize differs from the model", exp, d2);
         }
+        /* re-key the same state object with a DIFFERENT key (short after long, long after short, long after long):
+         * nothing of the previous key may survive in the state */
+        {
+            static const size_t K2L[] = {0, 5, 32, 64, 65, 100, 200};
+            uint8_t key2[256], e2[32];
+            size_t k2l = K2L[(size_t)idx % 7];
+            fill_random(&r, key2, sizeof key2);
+            tinyjambu_hmac_reinit(&st, key2, k2l);
+            tinyjambu_hmac_update(&st, in, mlen);
+            tinyjambu_hmac_finalize(&st, key2, k2l, d2);
+            m_hmac(e2, key2, k2l, in, mlen);
+            ++n_reinit; ++n_model;
+            if (memcmp(d2, e2, 32)) {
+                char k[96];
+                snprintf(k, sizeof k, "hmac-rekey-mismatch:%s-after-%s", k2l > 64 ? "long" : "short", keylen > 64 ? "long" : "short");
+                digest_mismatch(k, "HMAC after reinit with a different key differs from the model", e2, d2);
+            }
+            /* and a state abandoned mid-message, re-keyed by init */
+            tinyjambu_hmac_reinit(&st, key, keylen);
+            tinyjambu_hmac_update(&st, in, mlen / 2);
+            tinyjambu_hmac_init(&st, key2, k2l);
+            tinyjambu_hmac_update(&st, in, mlen);
+            tinyjambu_hmac_finalize(&st, key2, k2l, d2);
+            if (memcmp(d2, e2, 32)) digest_mismatch("hmac-rekey-mismatch:init-on-used-state", "HMAC after init on a used state differs from the model", e2, d2);
+        }
         tinyjambu_hmac_free(&st);
     }
 done:
@@ -335,6 +383,7 @@ int main(int argc, char **argv)
         }
     } else if (!strcmp(a.mode, "stream")) {
         stream_compositions(&a, &idx, a.p1 > 0 ? (int)a.p1 : 12, a.p2 > 0 ? (int)a.p2 : 8);
+        for (i = 0; i < 2; ++i, ++idx) if (mine(&a, idx)) stream_megabyte(&a, idx);
         for (i = 0; i < a.p3; ++i, ++idx) if (mine(&a, idx)) stream_random_chunks(&a, idx);
         for (i = 0; i < a.p3; ++i, ++idx) if (mine(&a, idx)) stream_history(&a, idx);
     } else if (!strcmp(a.mode, "hmac")) {
